@@ -10,15 +10,3 @@ NOT_BUILT = "check not built yet at this commit (planned in DESIGN.md §7; not a
 
 NOT_APPLICABLE = {f"C{i:02d}": NOT_BUILT for i in range(1, 21)}
 
-META = {
-    "C11": dict(
-        text="Theorems for all tag types, payload lengths < 2^24, timestamps < 2^32 and all tag sequences: lal's tag / file header / WebSocket "
-             "framing is read back by an FLV-spec reader, by the model of lal's reader and by an RFC 6455 reader as exactly what was written. "
-             "Proof is the right level because the property is a pure encode/decode law over unbounded sizes; the boundary points (125/126, 65535/65536, "
-             "2^24) are exactly where sampling misses.",
-        design_ref="§7 C11",
-        note="Trusted: Lean kernel + 3 standard axioms; the FLV/RFC 6455 spec readers as written in Spec/; the hand-written model, validated on every run against "
-             "httpflv.PackHttpflvTag/ReadTag, FlvFileWriter/Reader, base.MakeWsFrameHeader and a real httpflv.SubSession over a recording net.Conn.",
-        technique="Lean 4 round-trip theorems + differential correspondence",
-    ),
-}
